@@ -54,7 +54,6 @@ impl Prop for Unsol {
     }
 }
 
-
 // ---------------------------------------------------------------------------------------------
 // long time constants: the retry delay is a plain Duration, hours are legal
 
@@ -86,13 +85,25 @@ impl Prop for LongDelays {
         let hour = 3_600_000u64;
         (
             prop_oneof![
-                Just(1u64), Just(150), Just(5_000), Just(hour - 1), Just(hour), Just(hour + 1), Just(2 * hour), Just(48 * hour),
-                1u64..10_000, hour..3 * hour
+                Just(1u64),
+                Just(150),
+                Just(5_000),
+                Just(hour - 1),
+                Just(hour),
+                Just(hour + 1),
+                Just(2 * hour),
+                Just(48 * hour),
+                1u64..10_000,
+                hour..3 * hour
             ],
             0u8..3,
             prop_oneof![Just(100u32), Just(5_000), Just(3_600_000), 1u32..3_600_000],
         )
-            .prop_map(|(delay_ms, retries, confirm_ms)| DelayCase { delay_ms, retries, confirm_ms })
+            .prop_map(|(delay_ms, retries, confirm_ms)| DelayCase {
+                delay_ms,
+                retries,
+                confirm_ms,
+            })
             .boxed()
     }
     fn run(case: &DelayCase) -> CaseOut {
@@ -117,14 +128,29 @@ async fn run_delay(case: &DelayCase) -> CaseOut {
     cfg.keep_alive_ms = None;
     let mut rig = OutRig::start(cfg, AppBehaviour::default()).await;
     rig.db(|db| {
-        add_point(db, &PointSpec { ty: 0, index: 0, class: 1, svar: 2, evar: 1 });
+        add_point(
+            db,
+            &PointSpec {
+                ty: 0,
+                index: 0,
+                class: 1,
+                svar: 2,
+                evar: 1,
+            },
+        );
     });
     rig.settle().await;
     confirm_null_unsol(&mut rig).await;
     rig.send(&enable_unsol(1, true, &[1, 2, 3]));
     rig.settle().await;
     let _ = rig.take_tx();
-    rig.db(|db| update_point(db, &unique_rec(0, 0, 1, 1, 0), UpdateOptions::detect_event()));
+    rig.db(|db| {
+        update_point(
+            db,
+            &unique_rec(0, 0, 1, 1, 0),
+            UpdateOptions::detect_event(),
+        )
+    });
     rig.settle().await;
     // every unsolicited transmission from now on: (t, seq, bytes)
     let mut seen: Vec<(u64, u8, Vec<u8>)> = vec![];
@@ -158,7 +184,14 @@ async fn run_delay(case: &DelayCase) -> CaseOut {
         }
     }
     if series.len() > 1 + case.retries as usize {
-        out.fail(Fail::new("U4-too-many-retries", format!("{} transmissions with max_unsolicited_retries = {}", series.len(), case.retries)));
+        out.fail(Fail::new(
+            "U4-too-many-retries",
+            format!(
+                "{} transmissions with max_unsolicited_retries = {}",
+                series.len(),
+                case.retries
+            ),
+        ));
         return out;
     }
     let tf = t0 + series.len() as u64 * ct;
